@@ -324,13 +324,16 @@ class Check:
                     entry.update(ok=False, why="does not compile against the current extraction/model")
                 else:
                     ax = axioms.get(name)
-                    if ax is None:
+                    if mod_failed and bad:
+                        # another theorem of this module fails, so no compiled module exists to audit this one in
+                        entry.update(ok=False, unchecked=True, why="module did not build: " + ", ".join(sorted(bad))[:200])
+                    elif ax is None:
                         entry.update(ok=False, why="not found by #print axioms")
                     elif not set(ax) <= ALLOWED_AXIOMS:
                         entry.update(ok=False, why=f"axioms {ax}", axioms=ax)
                     else:
                         entry.update(ok=True, axioms=ax)
-                if not entry["ok"]:
+                if not entry["ok"] and not entry.get("unchecked"):
                     self.proof_broken.append(name)
                 self.obligations.append(entry)
         hits = forbidden_tokens(lean_sources())
